@@ -12,6 +12,7 @@ import PdfModel.Model.CacheDoc
               place  `d` direct | `f` free | `s<sid>.<idx>` member of object stream sid
               kind   `i,<v>` | `d` | `P,<parent|0>,<kids|->,<count>` | `p,<parent>` | `c,<pages>`
                      | `S,<filters|->,<stages>` | `X,<filters|->,<stages>` | `O,<n>,<filters|->,<stages>`
+                     | `A,<page|0>` annotation | `V,<ids|->` array of annotation references
               lists are `.`-separated
      calls  `;`-separated (`-` = none)  `g<T>.<id>` typed load | `r.<id>` resolve | `s.<id>` Stream::data
               | `w.<id>` raw_image_data | `m.<id>` image_data | `p.<n>` File::get_page
@@ -49,6 +50,8 @@ def parseKind : List String → Option Kind
   | ["S", fs, st] => do some (.stream (← parseNatList fs) (parseStrList st))
   | ["X", fs, st] => do some (.image (← parseNatList fs) (parseStrList st))
   | ["O", n, fs, st] => do some (.objstm (← natOf n) (← parseNatList fs) (parseStrList st))
+  | ["A", p] => do some (.annot (← natOf p))
+  | ["V", ids] => do some (.annots (← parseNatList ids))
   | _ => none
 
 def parseObj (s : String) : Option Obj :=
